@@ -2,7 +2,7 @@ package snap
 
 // Bounded stand-in (NOT a proof) for the ring assembly, which is outside the verifier's reach (C06, and the
 // element clause of C03): the real cleanupNewRing (= kmpDeduplicate + splitRing) and kmpDeduplicate are run on EVERY
-// ring of length 0..L over an alphabet of k pixel centres (k = 3: L = 15 quick / 18 thorough; k = 4: L = 10 / 12; without equal neighbours),
+// ring of length 0..L over an alphabet of k pixel centres (k = 3: L = 15 quick / 17 thorough; k = 4: L = 10 / 11; without equal neighbours),
 // with the hit-multiple map computed the way the index computes it (centres visited more than once), as outer and
 // as inner ring. Checked per input: no panic, returns within the time limit, and every vertex of every returned
 // ring is one of the input vertices (the assembly may only rearrange or drop vertices).
@@ -75,7 +75,7 @@ func TestGvcC06RingAssembly(t *testing.T) {
 	seed, _ := strconv.Atoi(os.Getenv("VERIF_SEED"))
 	pts := [][2]float64{{0.5, 0.5}, {1.5, 0.5}, {1.5, 1.5}, {0.5, 1.5}}
 	fails := 0
-	for _, cfg := range []struct{ k, quick, thorough int }{{3, 15, 18}, {4, 10, 12}} {
+	for _, cfg := range []struct{ k, quick, thorough int }{{3, 15, 17}, {4, 10, 11}} {
 		maxLen := cfg.quick
 		if thorough {
 			maxLen = cfg.thorough
@@ -113,7 +113,7 @@ func TestGvcC06RingAssembly(t *testing.T) {
 	six := append(append([][2]float64{}, pts...), [2]float64{2.5, 0.5}, [2]float64{2.5, 1.5})
 	n := 100000
 	if thorough {
-		n = 1500000
+		n = 800000
 	}
 	evals := 0
 	for i := 0; i < n && fails <= 3; i++ {
@@ -148,7 +148,7 @@ func TestGvcC06RingAssembly(t *testing.T) {
 	// letters, 8..47 vertices (the generator that found defect F9: overlapping removal ranges need about 25 vertices)
 	n = 600000
 	if thorough {
-		n = 8000000
+		n = 5000000
 	}
 	evals = 0
 	for i := 0; i < n && fails <= 3; i++ {
